@@ -89,6 +89,39 @@ def findBlockScalarEndScalar (buf : List Byte) (start minIndent : Nat) : Nat :=
 def classMask (c : Byte) (buf : List Byte) (offset width : Nat) : List Bool :=
   ((buf.drop offset).take width).map (· == c)
 
+/-- The integer whose bit `i` is `bs[i]`. -/
+def boolMask : List Bool → Nat
+  | [] => 0
+  | b :: bs => (if b then 1 else 0) + 2 * boolMask bs
+
+/-- `YamlCharClass`: one bitmask per structural byte, plus the number of bytes classified. -/
+structure CharClass where
+  newlines : Nat
+  carriageReturns : Nat
+  colons : Nat
+  hyphens : Nat
+  spaces : Nat
+  quotesDouble : Nat
+  quotesSingle : Nat
+  backslashes : Nat
+  hash : Nat
+  width : Nat
+  deriving DecidableEq, Repr
+
+/-- The classification of the `width` bytes at `offset`: bit `i` of each mask ⇔ byte `offset+i`
+is that character; `carriage_returns` is `0` when `HAS_CR` is false. -/
+def classSpec (hasCr : Bool) (buf : List Byte) (offset width : Nat) : CharClass :=
+  { newlines := boolMask (classMask 0x0a#8 buf offset width)
+    carriageReturns := if hasCr then boolMask (classMask 0x0d#8 buf offset width) else 0
+    colons := boolMask (classMask 0x3a#8 buf offset width)
+    hyphens := boolMask (classMask 0x2d#8 buf offset width)
+    spaces := boolMask (classMask 0x20#8 buf offset width)
+    quotesDouble := boolMask (classMask 0x22#8 buf offset width)
+    quotesSingle := boolMask (classMask 0x27#8 buf offset width)
+    backslashes := boolMask (classMask 0x5c#8 buf offset width)
+    hash := boolMask (classMask 0x23#8 buf offset width)
+    width := width }
+
 /-! ### `SUCCINCTLY_SIMD` clamp -/
 
 /-- Rust `char::is_whitespace` (Unicode `White_Space`), the set `str::trim` removes. -/
@@ -107,9 +140,9 @@ def normalise (s : List Char) : List Char :=
 
 /-- The documented spellings that clamp dispatch below AVX2. -/
 def clampSpellings : List (List Char) :=
-  ["scalar".toList, "sse2".toList, "sse42".toList, "sse4.2".toList]
+  [['s','c','a','l','a','r'], ['s','s','e','2'], ['s','s','e','4','2'], ['s','s','e','4','.','2']]
 
 /-- The documented no-op spellings. -/
-def noClampSpellings : List (List Char) := ["avx2".toList, []]
+def noClampSpellings : List (List Char) := [['a','v','x','2'], []]
 
 end SV.Yaml
